@@ -348,6 +348,7 @@ pub fn add_model<P: ProtoModel>(
     let mut receiver = mailbox.into_receiver();
     let abort_signal = abort_signal.clone();
     let mut cx = Context::new(name.clone(), scheduler, address);
+    proof { assert(cx.name() == name@); }                       //@ C16 #context-carries-the-registered-name
     let fut = model_loop_future(model, receiver, cx, abort_signal);
 
     let model_id = ModelId::new(model_names.len());
